@@ -160,7 +160,7 @@ CHECKS = {
         "legs": [
             model("Wiring_MC.cfg", spec="Wiring.tla", min_states=1000),
             model("Wiring_DevPos.cfg", spec="Wiring.tla", expect_violation="C05_OneToOne"),
-            dict(WT, kind="trace", name="wiring", workload="wiring", n=(300, 5000), opts={}, require={r'"ev":"h_use"': 600, r'"kind":"(bin|io|lr)_': 150, r'"hops":3': 50, r'"kind":"nest_tx"': 40},
+            dict(WT, kind="trace", name="wiring", workload="wiring", n=(300, 5000), opts={}, require={r'"ev":"h_use"': 600, r'"kind":"(bin|io|lr)_': 150, r'"hops":3': 50, r'"kind":"nest_tx"': 40, r'"kind":"binnest_tx"': 15},
                  nontrivial=[r'"ev":"w_recv","id":\d+\}|"cids":\[\d+,\d+', r'"ev":"h_use"']),
             dict(WT, kind="trace", name="wiring_hops3", workload="wiring", n=(150, 2000), opts={"hops": 3}, require={r'"ev":"h_use"': 300}, nontrivial=[r'"ev":"h_use"']),
             dict(WT, kind="trace", name="wiring_ports5", workload="wiring", n=(200, 3000), opts={"max_ports": 5}, require={r'ports exhausted': 50, r'"got":-1': 100},
